@@ -375,6 +375,11 @@ def run(ctx):
             ctx.ob("R20.4", "%s|%s" % (fn.name, re.sub(r"\s+", "", show(call))), ok, fn.loc(call), desc)
     ctx.floor("R20.4", "judged string-position sites in interrogatedb", n_sites, 2)
 
+    # ------------------------------------------------------------- R20.7 = R13.2
+    ctx.rule("R20.7", "by-name lookups are exact only if the name tables are rebuilt after every load: merge_from resets the freshness word after its last mutation, lookup() refreshes exactly the stale table (= R13.2)")
+    from .C13 import cache_rules
+    cache_rules(ctx, "R20.7")
+
     # ------------------------------------------------------------- R20.5 / R20.6
     _interface(ctx, positional)
 
